@@ -78,7 +78,10 @@ TText(e, ch) ==
       [] e[1] = "div" -> "(" \o TText(e[2], ch) \o "/" \o TText(e[3], ch) \o ")"
       [] e[1] = "pow" -> "(" \o TText(e[2], ch) \o (IF ch.pw = "caret" THEN "^" ELSE "**") \o TText(e[3], ch) \o ")"
       [] e[1] = "fn"  -> e[2] \o "(" \o TText(e[3], ch) \o ")"
-      [] e[1] = "mac" -> MacName(e[2], ch) \o "(" \o TText(e[3], ch)
+      \* the argument of a pseudofunction needs no parentheses of its own: "shift(x+k,-1)" (written so when ch.plus holds)
+      [] e[1] = "mac" -> MacName(e[2], ch) \o "(" \o (IF ch.plus /\ e[3][1] \in {"add", "sub"}
+                                                       THEN TText(e[3][2], ch) \o ch.sp \o (IF e[3][1] = "add" THEN "+" ELSE "-") \o ch.sp \o TText(e[3][3], ch)
+                                                       ELSE TText(e[3], ch))
                          \o (IF e[4] = Dflt THEN (IF ch.dflt THEN "," \o ch.sp \o ToString(DefaultShift(e[2])) ELSE "")
                              ELSE "," \o ch.sp \o (IF e[4] > 0 /\ ch.plus THEN "+" ELSE "") \o ToString(e[4]))
                          \o ")"
